@@ -136,7 +136,55 @@ def language_facts():
     return write_gen("UmlCsSrc.v", "\n".join(out) + "\n", srcs + [SRC])
 
 
+# ---------------------------------------------------------------- includes and forward declarations (Gen/UmlInclSrc.v)
+
+INCL_CLASS = [("Class", "GetNotForwardDeclarableNonPrimitiveTypesLinkedToThis"), ("Class", "GetForwardDeclarableNonPrimitiveTypesLinkedToThis"),
+              ("Class", "DoAttributesAssociationsReturnTypesOrFunctionParametersRequireVector"), ("Class", "GetAssociationsAsListOfAttributesPerVisibility"),
+              ("ClassDiagram", "GetNamespaceDependencies")]
+INCL_LANG = [("LanguageCPP", "GetNotForwardDeclarableHeaderIncludes"), ("LanguageCPP", "GetForwardDeclarableHeaderIncludes"), ("LanguageCPP", "GetForwardDeclarations"),
+             (None, "_getNamespaceToClassesFromFullyQualifiedNames"), (None, "_filterOutTypesNotInModel"), (None, "_getIncludeStringFromNamespaceToClassMap")]
+INCL_TAGS = ["<<<NOT_FORWARD_DECLARABLE_HEADER_INCLUDES>>>", "<<<FORWARD_DECLARABLE_HEADER_INCLUDES>>>", "<<<FORWARD_DECLARATIONS>>>"]
+
+
+def include_facts():
+    vcd = parse("kojen/vppclassdiagram.py")
+    cpp = parse("kojen/LanguageCPP.py")
+    out = []
+    prim = None
+    for n in vcd.body:
+        if isinstance(n, ast.Assign) and ast.unparse(n.targets[0]) == "PRIMITIVES":
+            if not isinstance(n.value, ast.Set):
+                raise Refuse("PRIMITIVES is not a set literal")
+            prim = sorted({const_str(e, "primitive type") for e in n.value.elts})
+    if prim is None:
+        raise Refuse("PRIMITIVES not found")
+    out.append("Definition primitives : list string := %s." % coq_str_list(prim))
+    for cls, fn in ("", "IsTypePrimitive"), ("", "IsTypePointerOrRef"), ("", "CleanModifiersFromType"):
+        out.append("Definition src_%s : string := %s." % (fn, coq_bs(no_doc(find_def(vcd, fn)))))
+    rows = []
+    for cls, fn in INCL_CLASS:
+        rows.append("(%s, %s)" % (coq_bs(cls + "." + fn), coq_str_list(tests_of(find_def(vcd, fn, cls))).replace("\n", " ")))
+    for cls, fn in INCL_LANG:
+        rows.append("(%s, %s)" % (coq_bs((cls + "." if cls else "") + fn), coq_str_list(tests_of(find_def(cpp, fn, cls))).replace("\n", " ")))
+    out.append("Definition include_tests : list (string * list string) := [\n    %s\n  ]." % ";\n    ".join(rows))
+    # which template has which include section, and the arguments umlgen passes
+    lay = []
+    for f in sorted(os.listdir(os.path.join(REPO, TDIRS[0][1]))):
+        text = open(os.path.join(REPO, TDIRS[0][1], f), encoding="utf-8", errors="replace").read()
+        tags = [t for t in INCL_TAGS if t in text]
+        if any(text.count(t) != 1 for t in tags):
+            raise Refuse("template %s: an include section occurs twice" % f)
+        lay.append("(%s, %s)" % (coq_bs(f), coq_str_list(tags).replace("\n", " ")))
+    out.append("Definition include_sections : list (string * list string) := [\n    %s\n  ]." % ";\n    ".join(lay))
+    gen = find_def(parse(SRC), "loadtemplates_firstfiltering", "CUMLGenerator")
+    calls = sorted({ast.unparse(n.value) for n in ast.walk(gen) if isinstance(n, ast.Assign) and isinstance(n.targets[0], ast.Subscript)
+                    and isinstance(n.targets[0].slice, ast.Constant) and n.targets[0].slice.value in INCL_TAGS})
+    out.append("Definition include_calls : list string := %s." % coq_str_list(calls))
+    return write_gen("UmlInclSrc.v", "\n".join(out) + "\n", ["kojen/vppclassdiagram.py", "kojen/LanguageCPP.py", SRC])
+
+
 def run():
+    include_facts()
     language_facts()
     tree = parse(SRC)
     br = branches(tree)
